@@ -310,6 +310,19 @@ def run_item(item, tier):
             compare(st, '"' + ch + '"', 'raw character in string')
             compare(st, "'" + ch + "'", 'raw character in char')
             compare(st, 'a' + ch + 'b', 'raw character between identifiers')
+        # text that is not in a Unicode normal form, or that case/compatibility mappings would change: must reach the
+        # token value unchanged, and must not move the spans of what follows on the line
+        for seq in ('e\u0301', 'A\u030a', '\u212b', '\u2126', '\u0340', '\u0344', '\u0374', '\u037e', '\u0387', '\uf900', '\ufa0e', '\U0002f800',
+                    '\u1100\u1161', '\u1100\u1161\u11a8', 'a\u0315\u0300', 'a\u0300\u0315', 'q\u0323\u0307', 'q\u0307\u0323', '\ufb01', '\u00bd',
+                    '\uff21', '\u0131', '\u0130', '\u00df', '\u1e9b\u0323', '\u03c2', '\u200b', '\u200d', '\ufeff', '\u00ad', '\u2028', '\u2029',
+                    '\u0085', '\u00e9', '\u1e69', 's\u0323\u0307', '\u0958', '\u2000', '\u3000', '\u2160'):
+            compare(st, '"' + seq + '"', 'non-normalised text in string')
+            compare(st, '"' + seq + '" + x', 'non-normalised text in string, token after it')
+            compare(st, '"a' + seq + 'b" "' + seq + '"', 'non-normalised text in two strings')
+            compare(st, "'" + seq + "'", 'non-normalised text in char')
+            compare(st, 'x // ' + seq + '\ny', 'non-normalised text in comment')
+            compare(st, 'x /* ' + seq + ' */ y', 'non-normalised text in block comment')
+            compare(st, 'a' + seq + 'b', 'non-normalised text between identifiers')
         for bad in ('"\\x4"', '"\\x"', '"\\xg0"', '"\\u"', '"\\u{"', '"\\u{}"', '"\\u{41"', '"\\u{g}"', "'", "''", "'ab'", '"', '"abc',
                     "'\\", '"\\', '@', '!', '@1', '!if', '@true', '@ x', '#', '$', '`', '~', '^', '&', '|', '\\', ':', '0x', '0b2', '0o8', '1__0', '_1', '1_',
                     '0x_1', '0X1F', '1e5', '1.5', '.5', 'a.b', 'x?y', 'a??b', 'a?b'):
@@ -377,7 +390,7 @@ def coverage(total, tier):
             'integers': f'all strings of length <= {6 if tier == "thorough" else 4} over {INTCHARS!r}',
             'triples': ('every token x every token x every 2nd token, glued and separated' if tier == 'thorough' else 'thorough tier only'),
             'files': '11 tokens (incl. literals containing raw TAB / VT) x 11 tokens x 11 separators x 3 line endings written to real files and loaded with SourceCode.from_file, plus 16 file shapes',
-            'escapes': 'all 256 \\xHH in 3 forms; every \\c for c in 0x20..0x7e in strings/chars; raw characters U+0000..U+017F; 50 malformed shapes',
+            'escapes': 'all 256 \\xHH in 3 forms; every \\c for c in 0x20..0x7e in strings/chars; raw characters U+0000..U+017F; 40 character sequences that Unicode normalisation / case or compatibility mapping would change, in strings, chars, comments and between identifiers; 50 malformed shapes',
             'unicode': 'every \\u{X} and literal character for X in 0..0x10FFFF' if tier == 'thorough' else '\\u{X} at 22 boundary values incl. surrogates and out-of-range',
             'layout': f'{len(layout_seeds())} seed programs (all examples + generated programs of every family) x {POLICIES}',
         },
